@@ -988,8 +988,8 @@ pub fn dir_exact(db: &DB, fs: &MemFs) -> Result<(), String> {
         let extra: Vec<_> = have.difference(&want).cloned().collect();
         let missing: Vec<_> = want.difference(&have).cloned().collect();
         return Err(format!(
-            "directory differs from the needed files; dead files kept: {extra:?}; live files missing: {missing:?}; versions alive: {}",
-            st.num_versions
+            "directory differs from the needed files; dead files kept: {extra:?}; live files missing: {missing:?}; versions alive: {}; live file numbers {:?}; tables in use {:?}; background scheduled {}; immutable memtable {}; needs compaction {}",
+            st.num_versions, st.live_files, st.tables_in_use, st.background_scheduled, st.has_immutable_memtable, st.needs_compaction
         ));
     }
     Ok(())
